@@ -8,8 +8,8 @@ CONSTANTS
   HasLock <- NoLock2
   Ops <- OpsJ
   MaxMut = 4
-  MaxSnap = 2
-  MaxDepth = 2
+  MaxSnap = 1
+  MaxDepth = 1
   FrameAddr <- FrJ
   NewAddrs <- NoNew
   XferTo <- NoXfer
